@@ -112,6 +112,19 @@ def baselineDiscarded : List (String × String × String × Nat) := []
 new statement-expression call `__archive_write_output(...);` breaks this theorem. -/
 theorem no_unchecked_output_calls : LA.Gen.WriteCalls.discarded = baselineDiscarded := by decide
 
+/-- Recorded baseline of discarded calls of local helpers that pass an output status on
+(`output_byte`, `wb_write_out`, …).  The two remaining sites are in the iso9660 writer's
+`zisofs_finish_entry`, which repositions the write buffer of its *temporary file*
+(`wb_set_offset` in `WB_TO_TEMP` mode): a temp-file error there does not involve the client
+write callback.  The unrepaired tree also had `output_code -> output_byte` twice in the
+compress filter (repaired: it swallowed a write error and then overran its buffer). -/
+def baselineDiscardedHelpers : List (String × String × String × Nat) :=
+  [("archive_write_set_format_iso9660.c", "zisofs_finish_entry", "wb_set_offset", 1),
+   ("archive_write_set_format_iso9660.c", "zisofs_finish_entry", "wb_set_offset", 2)]
+
+/-- **C09, no local helper drops an output status either** (beyond the recorded temp-file sites). -/
+theorem no_unchecked_helper_calls : LA.Gen.WriteCalls.discardedHelpers = baselineDiscardedHelpers := by decide
+
 /-- The inventory is not empty-handed: it looked at more than a hundred call sites. -/
 example : LA.Gen.WriteCalls.callSites ≥ 100 := by decide
 
